@@ -5,6 +5,7 @@ import (
 	"os"
 	"reflect"
 	"sort"
+	"strconv"
 	"strings"
 	"time"
 
@@ -161,8 +162,8 @@ func describeAPI(as []*apiOpt) []string {
 
 var apiGood = map[string][]string{
 	"int":    {"5", "-3", "0", "1234567"},
-	"string": {"v", "", "a b", "-x", "--y", "ü=1"},
-	"strs":   {"e1", "", "e 2", "-e"},
+	"string": {"v", "", "a b", "-x", "--y", "ü=1", `"x y"`, `"p\tq\"r"`},
+	"strs":   {"e1", "", "e 2", "-e", `"x y"`, `"\u00e9 "`},
 	"map":    {"a:1", "b:-2", "a:3", "é:0"},
 	"float":  {"2.5", "-1e3", "0"},
 	"dur":    {"1m", "250ms", "0s"},
@@ -180,6 +181,11 @@ func apiHostileTokens(r *Rand, as []*apiOpt) []string {
 	for _, a := range as {
 		l := a.Full
 		pool = append(pool, "--"+l, "--"+l+"=", "--"+l+":", "-"+l, "--"+l+"=--"+l)
+		// quoting: a lone quote, an unterminated and an empty quoted string, a dangling escape (attached, and as the
+		// next token: "\x01" separates two tokens)
+		for _, q := range []string{`"`, `"x`, `""`, `"\`, `"\"`, `'`, `"a"b"`} {
+			pool = append(pool, "--"+l+"="+q, "--"+l+"\x01"+q)
+		}
 		for _, v := range apiGood[a.Kind] {
 			pool = append(pool, "--"+l+"="+v)
 		}
@@ -188,7 +194,12 @@ func apiHostileTokens(r *Rand, as []*apiOpt) []string {
 		}
 		if a.Short != 0 {
 			s := string(a.Short)
-			pool = append(pool, "-"+s, "-"+s+"=", "-"+s+"5", "-"+s+s, "-"+s+"=x")
+			pool = append(pool, "-"+s, "-"+s+"=", "-"+s+"5", "-"+s+s, "-"+s+"=x", "-v"+s, "-"+s+"v", "-"+s+"\xff")
+			for _, a2 := range as {
+				if a2 != a && a2.Short != 0 {
+					pool = append(pool, "-"+s+string(a2.Short), "-"+s+string(a2.Short)+"=1")
+				}
+			}
 		}
 	}
 	return pool
@@ -226,7 +237,7 @@ func apiOccurrences(r *Rand, as []*apiOpt, sepOK bool) (toks []string, want map[
 		seen[a]++
 		switch a.Kind {
 		case "strs":
-			strs[a] = append(strs[a], v)
+			strs[a] = append(strs[a], denoteText(v))
 			want[a] = fmt.Sprintf("%q", strs[a])
 		case "map":
 			if ints[a] == nil {
@@ -249,10 +260,20 @@ func apiOccurrences(r *Rand, as []*apiOpt, sepOK bool) (toks []string, want map[
 			dv, _ := time.ParseDuration(v)
 			want[a] = dv.String()
 		default:
-			want[a] = fmt.Sprintf("%q", v)
+			want[a] = fmt.Sprintf("%q", denoteText(v))
 		}
 	}
 	return
+}
+
+// denoteText: an argument that is a Go-quoted string denotes the string it quotes (on the command line and in a file)
+func denoteText(v string) string {
+	if len(v) >= 2 && v[0] == '"' {
+		if u, err := strconv.Unquote(v); err == nil {
+			return u
+		}
+	}
+	return v
 }
 
 func canonIntMap(m map[string]int) string {
@@ -500,6 +521,12 @@ func buildMiniMode(r *Rand, mode string) *miniParser {
 		m.HasCmd = true
 		m.Desc = append(m.Desc, "AddCommand(\"run\"), SubcommandsOptional")
 	}
+	if r.Chance(1, 4) {
+		// the program has used the parser once before it registers the options (a plug-in loaded late)
+		safely(func() { m.P.ParseArgs(nil) })
+		m.P.Active = nil
+		m.Desc = append(m.Desc, "ParseArgs(nil) before the options are added")
+	}
 	n := r.Range(1, 3)
 	twin := false
 	kinds := []string{"int", "string", "strs", "map", "dur", "float"}
@@ -634,7 +661,11 @@ func (m *miniParser) apiOpts() []*apiOpt {
 func canonTexts(kind string, texts []string) string {
 	switch kind {
 	case "strs":
-		return fmt.Sprintf("%q", texts)
+		var ds []string
+		for _, t := range texts {
+			ds = append(ds, denoteText(t))
+		}
+		return fmt.Sprintf("%q", ds)
 	case "map":
 		mm := map[string]int{}
 		for _, t := range texts {
@@ -659,7 +690,7 @@ func canonTexts(kind string, texts []string) string {
 		dv, _ := time.ParseDuration(v)
 		return dv.String()
 	}
-	return fmt.Sprintf("%q", v)
+	return fmt.Sprintf("%q", denoteText(v))
 }
 
 // apiMiniSources (C05): command line > environment > Default > what the program stored.
@@ -678,7 +709,7 @@ func apiMiniSources(c *Ctx) {
 			for i := 0; i < n; i++ {
 				vs := apiGood[o.Kind]
 				v := vs[r.Intn(len(vs))]
-				for v == "" {
+				for v == "" || v[0] == '"' {
 					v = vs[r.Intn(len(vs))]
 				}
 				o.EnvVals = append(o.EnvVals, v)
@@ -775,13 +806,17 @@ func apiMiniRequired(c *Ctx) {
 				name = "-" + string(o.Short)
 			}
 			vs := apiGood[o.Kind]
-			t := name + "=" + vs[r.Intn(len(vs))]
+			v := vs[r.Intn(len(vs))]
+			t := []string{name + "=" + v}
+			if v != "" && v[0] != '-' && r.Chance(1, 3) {
+				t = []string{name, v}
+			}
 			if o.CmdHome {
-				cmdArgs = append(cmdArgs, t)
+				cmdArgs = append(cmdArgs, t...)
 			} else if useCmd && r.Bool() {
-				cmdArgs = append(cmdArgs, t) // options of the parser stay valid after the command word
+				cmdArgs = append(cmdArgs, t...) // options of the parser stay valid after the command word
 			} else {
-				args = append(args, t)
+				args = append(args, t...)
 			}
 		}
 		if o.Required && !supplied && (!o.CmdHome || useCmd) {
